@@ -1,0 +1,10 @@
+//go:build verif
+
+package sst
+
+// Accessors for the C07/C18 verification harness.
+
+// VerifParts returns the additions (with their level numbers, -1 = base level) and the removals of a change set.
+func (cs *ChangeSet) VerifParts() (additions []TableAddition, removals []*Table) {
+	return cs.additions, cs.removals
+}
